@@ -23,7 +23,8 @@
    types); `covered ix d` is the partial-filter gate. *)
 From Coq Require Import List ZArith String.
 From Lungo.Model Require Import Driver MiniOps.
-From Lungo.Proofs Require Import EntryLemmas IndexInv CollInv CollDup CatInv HistoryInv HistoryProps.
+From Lungo.Proofs Require Import EntryLemmas IndexInv CollInv CollDup CatInv HistoryInv HistoryProps
+     HistoryDup.
 Import ListNotations.
 Open Scope Z_scope.
 
@@ -251,6 +252,64 @@ Theorem C07_update_accepts :
     exists c' r, coll_update matchf applyf nc fresh query update sort skip limit afs now0 = (c', inl r).
 Proof. exact hist_update_accepts. Qed.
 Print Assumptions C07_update_accepts.
+
+(* ------------------------------------------------------------------ *)
+(* "all documents for _id": distinct documents of a namespace never have
+   compare-equal _id values (numbers of different types, arrays, documents:
+   whatever the BSON type) *)
+Theorem C07_ids_distinct :
+  forall matchf applyf extractf projectf now calls c h nc i1 d1 i2 d2,
+    visible_cat (after matchf applyf extractf projectf now calls) c ->
+    In (h, nc) (cat_ns c) -> h <> oplog_handle ->
+    In (i1, d1) (c_docs nc) -> In (i2, d2) (c_docs nc) -> i1 <> i2 ->
+    compare (Get d1 "_id") (Get d2 "_id") <> Eq.
+Proof. exact hist_ids_distinct. Qed.
+Print Assumptions C07_ids_distinct.
+
+(* ------------------------------------------------------------------ *)
+(* exactness at the driver level.  `target ds sid` is the catalog the call
+   works on (the transaction of session sid if it has one, else the committed
+   catalog); `can_write ds sid`: the call is routed to an open transaction or
+   no transaction holds the engine token (otherwise it fails with a plain
+   error before touching anything). *)
+Theorem C07_insert_one_reply_dup_iff :
+  forall matchf applyf extractf projectf now calls sid h d,
+    let ds := after matchf applyf extractf projectf now calls in
+    let nc := ns_or_new (target ds sid) h in
+    guard_write h = None -> can_write ds sid ->
+    (snd (step matchf applyf extractf projectf now ds (CInsertOne sid h d)) = RErr EDup <->
+     exists d', ensure_id d (gen_oid (g_oid (ds_gen ds))) = Ok d' /\
+                first_reject matchf (c_indexes nc) (docs_of nc) d').
+Proof. exact hist_insert_one_dup_iff. Qed.
+Print Assumptions C07_insert_one_reply_dup_iff.
+
+Theorem C07_create_index_reply_dup_sound :
+  forall matchf applyf extractf projectf now calls sid h name key unique partial expire_s,
+    let ds := after matchf applyf extractf projectf now calls in
+    let nc := ns_or_new (ds_cat ds) h in
+    let cf := mkConfig key unique partial (expiry_ns expire_s) in
+    guard_write h = None -> routed ds sid = None -> token_held ds = false ->
+    snd (step matchf applyf extractf projectf now ds
+              (CCreateIndex sid h name key unique partial expire_s)) = RErr EDup ->
+    exists n ix0, index_name name cf = Ok n /\ find_index (c_indexes nc) n = None /\
+                  new_index cf = Ok ix0 /\ dup_pair matchf (docs_of nc) ix0.
+Proof. exact hist_create_index_dup_sound. Qed.
+Print Assumptions C07_create_index_reply_dup_sound.
+
+Theorem C07_create_index_reply_dup_iff :
+  forall matchf applyf extractf projectf now calls sid h name key unique partial expire_s n ix0,
+    let ds := after matchf applyf extractf projectf now calls in
+    let nc := ns_or_new (ds_cat ds) h in
+    let cf := mkConfig key unique partial (expiry_ns expire_s) in
+    guard_write h = None -> routed ds sid = None -> token_held ds = false ->
+    index_name name cf = Ok n -> find_index (c_indexes nc) n = None ->
+    key_clash nc cf = false -> new_index cf = Ok ix0 ->
+    (forall sd, In sd (c_docs nc) -> covers_ok matchf ix0 (snd sd)) ->
+    (snd (step matchf applyf extractf projectf now ds
+               (CCreateIndex sid h name key unique partial expire_s)) = RErr EDup <->
+     dup_pair matchf (docs_of nc) ix0).
+Proof. exact hist_create_index_dup_iff. Qed.
+Print Assumptions C07_create_index_reply_dup_iff.
 
 (* ------------------------------------------------------------------ *)
 (* non-vacuity: after the history of C15.v (unique index on a, one document
